@@ -163,6 +163,17 @@ pub fn run(ctx: &mut Ctx) {
                 }
             }
         }
+        // counted kinds filled as far as the frame limit allows — well above what LFS sends (more than 40 players, 16 cars, 60
+        // objects): arithmetic on the count byte (an odd-count pad, a size computed from it) must hold up to 255
+        for l in ls.kinds.clone().iter() {
+            if l["tail"]["k"] != "vec" && l["tail"]["k"] != "set" { continue; }
+            for n in [31usize, 32, 41, 42, 43, 44, 62, 63, 64, 85, 86, 120, 127, 128, 169, 170, 200, 253, 254, 255] {
+                let f = gen_frame(&mut ctx.rng, l, compressed, &GenOpts { wild: 0, text: 0, count: Some(n) });
+                // gen_frame cuts at the mode's limit: only frames that really hold all n elements are interesting here, the
+                // cut ones are ordinary truncations (covered above) — both are run
+                hostile_case(ctx, &ls, compressed, &f, "many-elements");
+            }
+        }
         // the two kinds whose list is a *set* in the crate (allowed mods, banned addresses): the peer may well name one entry
         // twice, or send an all-zero list — the count byte then no longer equals the number of distinct entries
         for ty in [65u8, 67] {
